@@ -711,4 +711,389 @@ theorem text_end_split (cell : Cell) (cs : List Ch) (hdec : decode cell.text = s
     simp only [chCols]
     omega
 
+/-! ## The stages of the TEXT case on the terminal -/
+
+/-- An optional `erasech(k, YES)` for `k ∈ {0, 1}` (the blank for half of a double-width character). -/
+theorem erase_opt (t : GridTerm) (k : Int) (hk : k = 0 ∨ k = 1) :
+    (t.run (if k > 0 then [.erasech k .yes] else [])).line = t.line ∧
+    (t.run (if k > 0 then [.erasech k .yes] else [])).col = t.col + k ∧
+    (t.run (if k > 0 then [.erasech k .yes] else [])).pen = t.pen ∧
+    (∀ l c, ¬ (l = t.line ∧ t.col ≤ c ∧ c < t.col + k) →
+      (t.run (if k > 0 then [.erasech k .yes] else [])).cells l c = t.cells l c) ∧
+    (∀ c, t.col ≤ c → c < t.col + k →
+      (t.run (if k > 0 then [.erasech k .yes] else [])).cells t.line c =
+        { glyph := .blank, pen := t.pen, writes := (t.cells t.line c).writes + 1 }) := by
+  cases hk with
+  | inl h0 =>
+    subst h0
+    have : (if (0 : Int) > 0 then [Req.erasech 0 MaybeBool.yes] else []) = [] := by simp
+    rw [this]
+    exact ⟨rfl, by simp [GridTerm.run], rfl, fun _ _ _ => rfl, fun c h1 h2 => by omega⟩
+  | inr h1 =>
+    subst h1
+    simp only [gt_iff_lt, Int.zero_lt_one, if_true, GridTerm.run, GridTerm.step]
+    refine ⟨GridTerm.erasech_line _ _ _, GridTerm.erasech_col_yes _ _ (by omega), GridTerm.erasech_pen _ _ _, ?_, ?_⟩
+    · intro l c hn
+      rw [GridTerm.erasech_cells _ _ _ (by omega), if_neg hn]
+    · intro c h1 h2
+      rw [GridTerm.erasech_cells _ _ _ (by omega), if_pos ⟨rfl, h1, h2⟩]
+
+theorem curInv_putGlyph (t : GridTerm) (b : Ch) (hb : b.width > 0) :
+    CurInv (t.putGlyph b.bytes b.width) t.line ⟨b.bytes, b.width⟩ := by
+  have p2 : (t.putGlyph b.bytes b.width).col = t.col + b.width := rfl
+  have p5 : ∀ l k, (t.putGlyph b.bytes b.width).cells l k =
+      if l = t.line ∧ t.col ≤ k ∧ k < t.col + b.width then
+        { glyph := if k = t.col then .chars b.bytes else .wcont, pen := t.pen, writes := (t.cells l k).writes + 1 }
+      else t.cells l k := fun _ _ => rfl
+  have p4 : (t.putGlyph b.bytes b.width).last = some (t.line, t.col) := rfl
+  refine ⟨rfl, by rw [p4, p2]; simp, by simp only; omega, ?_, ?_, ?_⟩
+  · have e : (t.putGlyph b.bytes b.width).col - (⟨b.bytes, b.width⟩ : Grapheme).width = t.col := by
+      rw [p2]; simp only; omega
+    rw [e, p5, if_pos ⟨rfl, by omega, by omega⟩]; simp
+  · intro k h1 h2
+    rw [p2] at h1 h2; simp only at h1
+    rw [p5, if_pos ⟨rfl, by omega, by omega⟩]; simp only
+    rw [if_neg (by omega)]
+  · intro k h1 h2
+    rw [p2] at h1 h2; simp only at h1
+    rw [p5, if_pos ⟨rfl, by omega, by omega⟩]
+    rfl
+
+/-- Printing characters that begin with a character of width > 0, at the cursor. -/
+theorem putChs_text (M : List Ch) (hw : ∀ c ∈ M, 0 ≤ c.width) (hb : BaseHead M) (hne : M ≠ []) (t : GridTerm) :
+    (t.putChs M).line = t.line ∧ (t.putChs M).col = t.col + chCols M ∧ (t.putChs M).pen = t.pen ∧
+    (∀ l k, ¬ (l = t.line ∧ t.col ≤ k ∧ k < t.col + chCols M) → (t.putChs M).cells l k = t.cells l k) ∧
+    (∀ k, t.col ≤ k → k < t.col + chCols M →
+      ∃ x, colGlyph (graphemesAux M none) t.col k = some x ∧ ((t.putChs M).cells t.line k).glyph = x.1 ∧
+        ((t.putChs M).cells t.line k).pen = t.pen ∧
+        ((t.putChs M).cells t.line k).writes = (t.cells t.line k).writes + 1) := by
+  obtain ⟨b, M', rfl⟩ := List.exists_cons_of_ne_nil hne
+  have hbw := hb b M' rfl
+  have hw' : ∀ c ∈ M', 0 ≤ c.width := fun c h => hw c (by simp [h])
+  rw [putChs_cons]
+  have hput : t.putCh b = t.putGlyph b.bytes b.width := by simp [GridTerm.putCh]; omega
+  rw [hput, graphemesAux_base_none b M' hbw]
+  obtain ⟨r1, r2, r3, r4, r5⟩ := putChs_gs M' hw' (t.putGlyph b.bytes b.width) t.line _ (curInv_putGlyph t b hbw)
+  have p2 : (t.putGlyph b.bytes b.width).col = t.col + b.width := rfl
+  have p3 : (t.putGlyph b.bytes b.width).pen = t.pen := rfl
+  have p5 : ∀ l k, (t.putGlyph b.bytes b.width).cells l k =
+      if l = t.line ∧ t.col ≤ k ∧ k < t.col + b.width then
+        { glyph := if k = t.col then .chars b.bytes else .wcont, pen := t.pen, writes := (t.cells l k).writes + 1 }
+      else t.cells l k := fun _ _ => rfl
+  simp only at r2 r4 r5
+  have hc1 : (t.putGlyph b.bytes b.width).col - b.width = t.col := by rw [p2]; omega
+  rw [hc1] at r2 r4 r5
+  rw [p3] at r3 r5
+  have hcols : gCols (graphemesAux M' (some ⟨b.bytes, b.width⟩)) = chCols (b :: M') := by
+    rw [gCols_graphemesAux]; simp [gCols, chCols]
+  rw [hcols] at r2
+  have hM' := chCols_nonneg M' hw'
+  refine ⟨r1, r2, r3, ?_, ?_⟩
+  · intro l k hn
+    rw [r4 l k (by rw [r2]; exact hn), p5, if_neg (by simp only [chCols] at hn; omega)]
+  · intro k h1 h2
+    obtain ⟨x, x1, x2, x3, x4⟩ := r5 k h1 (by rw [r2]; exact h2)
+    refine ⟨x, x1, x2, x3, ?_⟩
+    rw [x4, p5, p2]
+    by_cases hk : k < t.col + b.width
+    · rw [if_pos ⟨rfl, h1, hk⟩, if_pos hk]
+    · rw [if_neg (by omega), if_neg hk]
+
+theorem bytesLen_append (a b : List Ch) : bytesLen (a ++ b) = bytesLen a + bytesLen b := by
+  induction a with
+  | nil => simp [bytesLen]
+  | cons c a ih => simp only [List.cons_append, bytesLen, ih]; omega
+
+theorem bytesLen_pos (M : List Ch) (hsd : ∀ c ∈ M, SelfDec c) (hne : M ≠ []) : 0 < bytesLen M := by
+  obtain ⟨b, M', rfl⟩ := List.exists_cons_of_ne_nil hne
+  have := (hsd b (by simp)).length_pos
+  simp only [bytesLen]; omega
+
+/-- The terminal reads the bytes of decoded characters back as those characters. -/
+theorem printBytes_chars (M : List Ch)
+    (hp : ∀ c ∈ M, SelfDec c ∧ c.width = wcwidth c.cp ∧ (c.width = 0 ∨ c.width = 1 ∨ c.width = 2)) (t : GridTerm) :
+    t.printBytes (M.flatMap (·.bytes)) = t.putChs M := by
+  unfold GridTerm.printBytes
+  have hsd : ∀ c ∈ M, SelfDec c := fun c hc => (hp c hc).1
+  have hlen := flatMap_bytes_length_ge M hsd
+  have := termDecode_flatten M hsd [] ((M.flatMap (·.bytes)).length + 1) (by omega)
+  simp only [List.nil_append, List.length_nil] at this
+  rw [this]
+  have hmap : (M.map fun c => (⟨c.bytes, c.cp, termWidth c.cp⟩ : Ch)) = M := by
+    have : ∀ c ∈ M, (⟨c.bytes, c.cp, termWidth c.cp⟩ : Ch) = c := by
+      intro c hc
+      obtain ⟨_, h2, h3⟩ := hp c hc
+      have : termWidth c.cp = c.width := by
+        unfold termWidth
+        rw [← h2]
+        rw [if_neg (by omega)]
+      rw [this]
+    rw [List.map_congr_left this, List.map_id']
+  rw [hmap]
+
+/-- The print request of the TEXT case delivers the characters of the slice. -/
+theorem print_slice (cell : Cell) (cs : List Ch) (hdec : decode cell.text = some cs)
+    (hp : ∀ c ∈ cs, SelfDec c ∧ c.width = wcwidth c.cp ∧ (c.width = 0 ∨ c.width = 1 ∨ c.width = 2))
+    (ks ke : Nat) (h1 : ks ≤ ke) (h2 : ke ≤ cs.length)
+    (hstart : textStart cell = advance {} (cs.take ks)) (hend : textEnd cell = advance {} (cs.take ke))
+    (t : GridTerm) :
+    ((textEnd cell).bytes > (textStart cell).bytes ↔ (cs.drop ks).take (ke - ks) ≠ []) ∧
+    ((cs.drop ks).take (ke - ks) ≠ [] →
+      t.step (.print cell.text (textStart cell).bytes.toNat ((textEnd cell).bytes - (textStart cell).bytes).toNat) =
+        t.putChs ((cs.drop ks).take (ke - ks))) := by
+  have hsplit : cs.take ke = cs.take ks ++ (cs.drop ks).take (ke - ks) := by
+    rw [show ke = ks + (ke - ks) by omega, List.take_add]
+    simp
+  have hsb : (textStart cell).bytes = (bytesLen (cs.take ks) : Int) := by
+    rw [hstart, advance_bytes]; simp
+  have heb : (textEnd cell).bytes = (bytesLen (cs.take ks) : Int) + (bytesLen ((cs.drop ks).take (ke - ks)) : Int) := by
+    rw [hend, advance_bytes, hsplit, bytesLen_append]; simp
+  have hpM : ∀ c ∈ (cs.drop ks).take (ke - ks), SelfDec c ∧ c.width = wcwidth c.cp ∧
+      (c.width = 0 ∨ c.width = 1 ∨ c.width = 2) :=
+    fun c hc => hp c (List.mem_of_mem_drop (List.mem_of_mem_take hc))
+  refine ⟨?_, ?_⟩
+  · rw [hsb, heb]
+    constructor
+    · intro h hnil
+      rw [hnil] at h
+      simp [bytesLen] at h
+    · intro hne
+      have := bytesLen_pos _ (fun c hc => (hpM c hc).1) hne
+      omega
+  · intro hne
+    have hpos := bytesLen_pos _ (fun c hc => (hpM c hc).1) hne
+    simp only [GridTerm.step]
+    rw [hsb, heb, Int.toNat_natCast, show ((bytesLen (cs.take ks) : Int) + (bytesLen ((cs.drop ks).take (ke - ks)) : Int) -
+      (bytesLen (cs.take ks) : Int)).toNat = bytesLen ((cs.drop ks).take (ke - ks)) by omega]
+    have hreq : GridTerm.reqBytes t.viaWriteStr cell.text (bytesLen (cs.take ks))
+        (bytesLen ((cs.drop ks).take (ke - ks))) = ((cs.drop ks).take (ke - ks)).flatMap (·.bytes) := by
+      unfold GridTerm.reqBytes
+      have : bytesLen ((cs.drop ks).take (ke - ks)) ≠ 0 := by omega
+      simp only [this, decide_false, Bool.false_and, Bool.false_eq_true, if_false, beq_iff_eq]
+      have hsuf := decodeFrom_suffix cell.text ks cs (cell.text.length + 1) 0 hdec (by omega)
+      rw [Nat.zero_add] at hsuf
+      exact decodeFrom_bytes cell.text (ke - ks) (cs.drop ks) _ _ hsuf
+    rw [hreq, printBytes_chars _ hpM]
+
+theorem split_colGlyph_at (cs : List Ch) (hw : ∀ c ∈ cs, 0 ≤ c.width) (k : Nat) (hb : BaseHead (cs.drop k))
+    (c q : Int) (h0 : c ≤ q) :
+    colGlyph (graphemesAux cs none) c q =
+      if q < c + chCols (cs.take k) then colGlyph (graphemesAux (cs.take k) none) c q
+      else colGlyph (graphemesAux (cs.drop k) none) (c + chCols (cs.take k)) q := by
+  have h1 : graphemesAux cs none = graphemesAux (cs.take k) none ++ graphemesAux (cs.drop k) none := by
+    rw [← graphemesAux_append _ _ hb, List.take_append_drop]
+  have hpos : ∀ g ∈ graphemesAux (cs.take k) none, 1 ≤ g.width :=
+    graphemesAux_width_pos _ (widths_take hw k) none (by simp)
+  have hg : gCols (graphemesAux (cs.take k) none) = chCols (cs.take k) := by
+    rw [gCols_graphemesAux]; simp [gCols]
+  rw [h1, colGlyph_append _ _ hpos c q h0, hg]
+
+/-- The print stage, whether or not there is anything to print. -/
+theorem print_opt (M : List Ch) (hw : ∀ c ∈ M, 0 ≤ c.width) (hb : BaseHead M) (t t' : GridTerm)
+    (h : (M = [] ∧ t' = t) ∨ (M ≠ [] ∧ t' = t.putChs M)) :
+    t'.line = t.line ∧ t'.col = t.col + chCols M ∧ t'.pen = t.pen ∧
+    (∀ l k, ¬ (l = t.line ∧ t.col ≤ k ∧ k < t.col + chCols M) → t'.cells l k = t.cells l k) ∧
+    (∀ k, t.col ≤ k → k < t.col + chCols M →
+      ∃ x, colGlyph (graphemesAux M none) t.col k = some x ∧ (t'.cells t.line k).glyph = x.1 ∧
+        (t'.cells t.line k).pen = t.pen ∧ (t'.cells t.line k).writes = (t.cells t.line k).writes + 1) := by
+  cases h with
+  | inl h =>
+    obtain ⟨hM, ht⟩ := h
+    subst hM; subst ht
+    have hz : chCols [] = 0 := rfl
+    rw [hz]
+    exact ⟨rfl, by omega, rfl, fun _ _ _ => rfl, fun k h1 h2 => by omega⟩
+  | inr h =>
+    obtain ⟨hM, ht⟩ := h
+    subst ht
+    exact putChs_text M hw hb hM t
+
+/-! ## The TEXT case -/
+
+theorem graphemes_of_decode {s : List UInt8} {cs : List Ch} (h : decode s = some cs) :
+    graphemes s = some (graphemesAux cs none) := by
+  unfold graphemes; rw [h]; rfl
+
+theorem text_run {rb : RB} {line col : Int} (hl : 0 ≤ line ∧ line < rb.lines) (h0 : 0 ≤ col)
+    (hr : RunAt rb line col) (hs : (rb.cell line col).state = .text) : TextRunOK rb line col := by
+  intro t ht
+  obtain ⟨cs, hdec, hoffs, htot⟩ := hr.text hs
+  have hn := hr.pos
+  have hp := decodeFrom_props (rb.cell line col).text cs _ 0 hdec
+  have hw012 : ∀ c ∈ cs, c.width = 0 ∨ c.width = 1 ∨ c.width = 2 := fun c hc => (hp c hc).2.2
+  have hw0 := widths_nonneg_of_012 hw012
+  obtain ⟨ks, hks, hstart, hbs, hsc⟩ := text_start_split _ cs hdec hw012 hoffs hn htot
+  have hsc' : chCols (cs.take ks) = (rb.cell line col).offs ∨ chCols (cs.take ks) = (rb.cell line col).offs + 1 := by
+    cases hsc with
+    | inl h => exact Or.inl h
+    | inr h => exact Or.inr h.1
+  obtain ⟨ke, hke1, hke2, hend, hbe, hcke, htr⟩ := text_end_split _ cs hdec hw012 hoffs hn htot ks hks hstart hbs hsc'
+  obtain ⟨hbytes, hprint⟩ := print_slice _ cs hdec hp ks ke hke1 hke2 hstart hend
+    ((t.setpen (rb.cell line col).pen).run
+      (if textLead (rb.cell line col) > 0 then [.erasech (textLead (rb.cell line col)) .yes] else []))
+  -- the slice
+  generalize hM : (cs.drop ks).take (ke - ks) = M at hcke hbytes hprint
+  have hMw : ∀ c ∈ M, 0 ≤ c.width := by
+    rw [← hM]; exact widths_take (widths_drop hw0 ks) _
+  have hMb : BaseHead M := by
+    intro b rest hbr
+    have : ∃ rest', cs.drop ks = b :: rest' := by
+      rw [← hM] at hbr
+      cases hd : cs.drop ks with
+      | nil => rw [hd] at hbr; simp at hbr
+      | cons d ds =>
+        rw [hd] at hbr
+        cases hk : ke - ks with
+        | zero => rw [hk] at hbr; simp at hbr
+        | succ j =>
+          rw [hk, List.take_succ_cons] at hbr
+          simp only [List.cons.injEq] at hbr
+          exact ⟨ds, by rw [hbr.1]⟩
+    obtain ⟨rest', hr'⟩ := this
+    exact hbs b rest' hr'
+  have hMcols := chCols_nonneg M hMw
+  -- lead and trail
+  have hlead : textLead (rb.cell line col) = chCols (cs.take ks) - (rb.cell line col).offs := by
+    unfold textLead; rw [hstart, advance_columns, zero_columns, Int.zero_add]
+  have htrail : textTrail (rb.cell line col) =
+      (rb.cell line col).offs + (rb.cell line col).cols - chCols (cs.take ke) := by
+    unfold textTrail; rw [hend, advance_columns, zero_columns, Int.zero_add]
+  have hlead01 : textLead (rb.cell line col) = 0 ∨ textLead (rb.cell line col) = 1 := by
+    rw [hlead]; omega
+  have htrail01 : textTrail (rb.cell line col) = 0 ∨ textTrail (rb.cell line col) = 1 := by
+    rw [htrail]
+    cases htr with
+    | inl h => left; omega
+    | inr h => right; omega
+  -- the stages
+  unfold textReqs
+  rw [GridTerm.run_append, GridTerm.run_append, GridTerm.run_append]
+  have e1 : (t.run [.setpen (rb.cell line col).pen]).line = line := ht.1
+  have e2 : (t.run [.setpen (rb.cell line col).pen]).col = col := ht.2
+  have e3 : (t.run [.setpen (rb.cell line col).pen]).cells = t.cells := rfl
+  have e4 : (t.run [.setpen (rb.cell line col).pen]).pen = termSetpen t.pen (rb.cell line col).pen := rfl
+  have e5 : t.run [.setpen (rb.cell line col).pen] = t.setpen (rb.cell line col).pen := rfl
+  rw [e5] at e1 e2 e3 e4
+  rw [e5]
+  generalize t.setpen (rb.cell line col).pen = t1 at e1 e2 e3 e4 hprint ⊢
+  obtain ⟨a1, a2, a3, a4, a5⟩ := erase_opt t1 (textLead (rb.cell line col)) hlead01
+  generalize hA : t1.run (if textLead (rb.cell line col) > 0 then
+    [Req.erasech (textLead (rb.cell line col)) MaybeBool.yes] else []) = tA at a1 a2 a3 a4 a5 hprint ⊢
+  have hB : (M = [] ∧ tA.run (if (textEnd (rb.cell line col)).bytes > (textStart (rb.cell line col)).bytes then
+        [Req.print (rb.cell line col).text (textStart (rb.cell line col)).bytes.toNat
+          ((textEnd (rb.cell line col)).bytes - (textStart (rb.cell line col)).bytes).toNat] else []) = tA) ∨
+      (M ≠ [] ∧ tA.run (if (textEnd (rb.cell line col)).bytes > (textStart (rb.cell line col)).bytes then
+        [Req.print (rb.cell line col).text (textStart (rb.cell line col)).bytes.toNat
+          ((textEnd (rb.cell line col)).bytes - (textStart (rb.cell line col)).bytes).toNat] else []) = tA.putChs M) := by
+    by_cases hne : M = []
+    · left
+      refine ⟨hne, ?_⟩
+      rw [if_neg (fun hgt => (hbytes.mp hgt) hne)]
+      rfl
+    · right
+      refine ⟨hne, ?_⟩
+      rw [if_pos (hbytes.mpr hne)]
+      exact hprint hne
+  obtain ⟨b1, b2, b3, b4, b5⟩ := print_opt M hMw hMb tA _ hB
+  generalize tA.run (if (textEnd (rb.cell line col)).bytes > (textStart (rb.cell line col)).bytes then
+        [Req.print (rb.cell line col).text (textStart (rb.cell line col)).bytes.toNat
+          ((textEnd (rb.cell line col)).bytes - (textStart (rb.cell line col)).bytes).toNat] else []) = tB
+    at b1 b2 b3 b4 b5 ⊢
+  obtain ⟨c1, c2, c3, c4, c5⟩ := erase_opt tB (textTrail (rb.cell line col)) htrail01
+  generalize tB.run (if textTrail (rb.cell line col) > 0 then
+    [Req.erasech (textTrail (rb.cell line col)) MaybeBool.yes] else []) = tC at c1 c2 c3 c4 c5 ⊢
+  -- column arithmetic
+  have hAcol : tA.col = col + textLead (rb.cell line col) := by rw [a2, e2]
+  have hBcol : tB.col = col + textLead (rb.cell line col) + chCols M := by rw [b2, hAcol]
+  have hsum : textLead (rb.cell line col) + chCols M + textTrail (rb.cell line col) = (rb.cell line col).cols := by
+    rw [hlead, htrail, hcke]; omega
+  have hAline : tA.line = line := by rw [a1, e1]
+  have hBline : tB.line = line := by rw [b1, hAline]
+  have hgr := graphemes_of_decode hdec
+  refine ⟨⟨?_, ?_, by rw [c1, hBline]⟩, by rw [c2, hBcol]; omega⟩
+  · -- inside the run
+    intro c hc1 hc2
+    rw [want_of_run hl h0 hr c hc1 hc2]
+    unfold wantOf
+    simp only [hs, hgr, Option.bind_some]
+    by_cases hreg1 : c < col + textLead (rb.cell line col)
+    · -- the right half of a double-width character that starts before the run
+      have hl1 : textLead (rb.cell line col) = 1 := by omega
+      have hcc : c = col := by omega
+      subst hcc
+      have hhalf : ∃ gl, colGlyph (graphemesAux cs none) 0 (rb.cell line c).offs =
+          some (gl, (rb.cell line c).offs - 1, 2) := by
+        cases hsc with
+        | inl h => rw [hlead] at hl1; omega
+        | inr h => exact h.2
+      obtain ⟨gl, hgl⟩ := hhalf
+      rw [show (rb.cell line c).offs + (c - c) = (rb.cell line c).offs by omega, hgl]
+      simp only
+      rw [if_neg (by omega)]
+      rw [c4 line c (by rw [hBline, hBcol]; omega), b4 line c (by rw [hAline, hAcol]; omega)]
+      have := a5 c (by rw [e2]; omega) (by rw [e2]; omega)
+      rw [e1] at this
+      rw [this, e3, e4]
+      exact cellOK_glyph _ _ _ _
+    · by_cases hreg2 : c < col + textLead (rb.cell line col) + chCols M
+      · -- a cell of the printed slice
+        obtain ⟨x, x1, x2, x3, x4⟩ := b5 c (by rw [hAcol]; omega) (by rw [hAcol]; exact hreg2)
+        rw [hAline] at x2 x3 x4
+        have hq : (0 : Int) ≤ (rb.cell line col).offs + (c - col) := by omega
+        have hleadcol : chCols (cs.take ks) = (rb.cell line col).offs + textLead (rb.cell line col) := by
+          rw [hlead]; omega
+        -- the specification's glyph, by splitting the text at `ks` and at `ke`
+        have hspec : colGlyph (graphemesAux cs none) 0 ((rb.cell line col).offs + (c - col)) =
+            colGlyph (graphemesAux M none) (chCols (cs.take ks)) ((rb.cell line col).offs + (c - col)) := by
+          rw [split_colGlyph cs hw0 ks hbs _ hq, if_neg (by omega)]
+          have hbe' : BaseHead ((cs.drop ks).drop (ke - ks)) := by
+            rw [List.drop_drop, show ks + (ke - ks) = ke by omega]; exact hbe
+          rw [split_colGlyph_at (cs.drop ks) (widths_drop hw0 ks) (ke - ks) hbe' _ _ (by omega), hM,
+            if_pos (by omega)]
+        have hshift := colGlyph_shift (graphemesAux M none) (col - (rb.cell line col).offs) (chCols (cs.take ks))
+          ((rb.cell line col).offs + (c - col))
+        rw [show chCols (cs.take ks) + (col - (rb.cell line col).offs) = tA.col by rw [hAcol, hleadcol]; omega,
+          show (rb.cell line col).offs + (c - col) + (col - (rb.cell line col).offs) = c by omega, x1] at hshift
+        cases hy : colGlyph (graphemesAux M none) (chCols (cs.take ks)) ((rb.cell line col).offs + (c - col)) with
+        | none => rw [hy] at hshift; simp at hshift
+        | some y =>
+          rw [hy] at hshift
+          simp only [Option.map_some, Option.some.injEq] at hshift
+          obtain ⟨yg, yc, yw⟩ := y
+          have hMpos : ∀ g ∈ graphemesAux M none, 1 ≤ g.width := graphemesAux_width_pos M hMw none (by simp)
+          obtain ⟨y1, _, _, y4⟩ := colGlyph_bounds _ hMpos _ _ _ _ _ hy
+          have hgM : gCols (graphemesAux M none) = chCols M := by rw [gCols_graphemesAux]; simp [gCols]
+          rw [hgM] at y4
+          rw [hspec, hy]
+          simp only
+          rw [if_pos ⟨by omega, by rw [hcke] at *; omega⟩]
+          have hxg : x.1 = yg := by rw [hshift]
+          rw [c4 line c (by rw [hBline, hBcol]; omega)]
+          have hpen : penSame (tB.cells line c).pen (rb.cell line col).pen = true := by
+            rw [x3, a3, e4]; exact penSame_termSetpen _ _
+          have hwr : (tB.cells line c).writes = (t.cells line c).writes + 1 := by
+            rw [x4, a4 line c (by rw [e1, e2]; omega), e3]
+          simp only [cellOK, x2, hxg, hpen, hwr, beq_self_eq_true, Bool.and_self]
+      · -- the left half of a double-width character that ends after the run
+        have ht1 : textTrail (rb.cell line col) = 1 := by omega
+        have hcc : c = col + (rb.cell line col).cols - 1 := by omega
+        have hhalf : ∃ gl, colGlyph (graphemesAux cs none) 0 ((rb.cell line col).offs + (rb.cell line col).cols - 1) =
+            some (gl, (rb.cell line col).offs + (rb.cell line col).cols - 1, 2) := by
+          cases htr with
+          | inl h => rw [htrail] at ht1; omega
+          | inr h => exact h.2
+        obtain ⟨gl, hgl⟩ := hhalf
+        rw [show (rb.cell line col).offs + (c - col) = (rb.cell line col).offs + (rb.cell line col).cols - 1 by omega,
+          hgl]
+        simp only
+        rw [if_neg (by omega)]
+        have := c5 c (by rw [hBcol]; omega) (by rw [hBcol]; omega)
+        rw [hBline] at this
+        rw [this, b3, a3, e4, b4 line c (by rw [hAline, hAcol]; omega), a4 line c (by rw [e1, e2]; omega), e3]
+        exact cellOK_glyph _ _ _ _
+  · -- outside the run
+    intro l c hout
+    rw [c4 l c (by rw [hBline, hBcol]; omega), b4 l c (by rw [hAline, hAcol]; omega),
+      a4 l c (by rw [e1, e2]; omega), e3]
+
 end Tickit.RBFlush
